@@ -408,3 +408,7 @@ def run(ck):
                    rule="20..600 points on two roughly parallel / curved / tilted sheets with jitter, unit normals with angular noise, arbitrary labelling; voxel size, max thickness, max_angle 1..30, both directions; "
                         "CPU implementation and numba kernel; every clause checked against a brute-force greedy matcher. distinct = (case, geometry, size, direction)",
                    bound=f"{n} cases, <= 600 points, < 25 candidates per source point")
+    na = 400 if ck.tier == "quick" else 8000
+    ck.bounded_run("assignment", r.gen_assign_cases(ck.seed, na), r.run_assign_case, ref="rtc.c20:run_assign_case",
+                   rule="random candidate lists (1..40 matches over 2..13 points, heavy contention, point index 0 included, distinct distances) handed to process_matches_cpu2cpu, compared with a brute-force greedy matcher. distinct = (case, points, matches)",
+                   bound=f"{na} candidate lists")
